@@ -26,6 +26,17 @@ def gen_cases(ctx):
         ctx.add_tlc(r, "export: simulated scenarios, 3 relations x <=4 members over 6 refs, template flags " + sub)
         for i, c in enumerate(r.cases):
             cases.append(dict(c, id="%s-%d" % (sub, i)))
+            if i % 3 == 0:      # same scenario with members padded so that the stash garbage collects in the middle
+                cases.append(dict(c, id="%s-%d-big" % (sub, i), big=True))
+    # scenarios over six node/way member refs (no relation members): enough stored members for the stash's automatic
+    # garbage collection to run in the middle when the members are padded ("big")
+    r = vlib.tlc_ok(vlib.tlc("MCRelMgr", "GenRelMgr_GC.cfg", workers=8, simulate=(150 if quick else 2000), depth=60, seed=ctx.seed,
+                             tag="relmgr_GC"), "export GC")
+    ctx.add_tlc(r, "export: simulated scenarios, 3 relations x <=4 members over 6 node/way refs (GC in the middle)")
+    for i, c in enumerate(r.cases):
+        cases.append(dict(c, id="GC-%d-big" % i, big=True))
+        if i % 4 == 0:
+            cases.append(dict(c, id="GC-%d" % i))
     return cases
 
 
@@ -68,7 +79,10 @@ def run(ctx):
                     "expected_events": [s["ev"] for s in c["steps"] if s["ev"]]})
     ctx.assumptions = ["member objects are fed in sorted order with distinct ids (the manager's CheckOrder enforces it)",
                        "named deviation: a relation of interest without wanted members never completes and is listed as incomplete",
-                       "MultipolygonManager is covered through its base class RelationsManager only"]
+                       "MultipolygonManager is covered through its base class RelationsManager only",
+                       "every third simulated scenario is replayed a second time with member objects padded to a quarter of the "
+                       "stash buffer, so that ItemStash's automatic garbage collection (threshold lowered by "
+                       "OSMIUM_VERIF_STASH_GC_MIN=2) runs inside add_item() in the middle of the scenario"]
 
 
 def replay(ctx, path):
